@@ -193,7 +193,8 @@ pub fn random_cfg(rng: &mut Sm, i: usize) -> AgentCfg {
         p_market: prob(rng),
         p_cancel: prob(rng),
         trade_vol: rng.range(1, 200) as u32,
-        mu: *rng.pick(&[0.0, 1.0, 3.0, -1.0]),
+        // finite but extreme location parameters (samples overflow to infinity / underflow to zero) now and then
+        mu: if rng.chance(0.03) { *rng.pick(&[700.0, -700.0, 300.0]) } else { *rng.pick(&[0.0, 1.0, 3.0, -1.0]) },
         sigma,
         decay: *rng.pick(&[0.1, 0.5, 1.0, 0.0]),
         demand: *rng.pick(&[0.5, 5.0, 50.0]),
